@@ -249,3 +249,14 @@ O("C03.mux.ctor", "C03", "h_C03.c", "h_C03_mux_ctor",
   "echs_evstrm_mux_clon (varargs collector shared in shape with echs_evstrm_mux): memory safe for 1..5 streams, all streams become constituents in order",
   ["echs_evstrm_mux_clon", "make_evmux"], kind="bounded", bound="1..5 variadic arguments", defines=["-DHNS=3"], unwind=8,
   solver=["minisat", "kissat"], native_srcs=["instant.c"])
+
+# ------------------------------------------------------------------ C02
+P("C02", level="proof",
+  level_text="Contract of next_evfilt / make_evfilt on the real evfilt.c against abstract strictly increasing occurrence and exception streams: the delivered occurrence is the first one whose start equals no exception start, for all instants, all durations (zero included) and peek/pop; plus the union side (next_evmux, C03 obligations). The walk is a goto-formed loop without a loop-contract slot, so it is explored for up to 3 pending occurrences x 3 pending exceptions per call (bounded stand-in, stated).",
+  level_note="Trusted: CBMC semantics, abstract child stream model (h_stream.h). Bounded: 3 occurrences and 3 exceptions pending per call. Not covered: instant_soup's TZID handling of RDATE/EXDATE values (needs the zone database), __make_evrdat, heap lifetimes.",
+  not_covered=["TZID conversion of RDATE/EXDATE values (instant_soup)", "several EXDATE property lines in the parser", "heap lifetime of the streams"])
+O("C02.next_evfilt", "C02", "h_C02.c", "h_C02_next_evfilt",
+  "next_evfilt: with symbolic strictly increasing occurrence and exception streams, any duration >= 0, peek or pop: delivers the first occurrence whose start equals no exception start; ends when all are excluded; pop consumes exactly the delivered one",
+  ["next_evfilt", "make_evfilt", "echs_range_overlaps_p", "echs_range_precedes_p", "echs_event_range"], kind="bounded",
+  bound="3 pending occurrences x 3 pending exceptions per call", unwind=9, unwinding_assertions=True,
+  solver=["minisat", "kissat"], timeout={"quick": 900, "thorough": 3600})
